@@ -191,6 +191,12 @@ InvTail == (lastT # <<>> /\ Parses(lastT)) =>
                /\ Len(stack) >= Len(Postfix(lastT))
                /\ SubSeq(stack, Len(stack) - Len(Postfix(lastT)) + 1, Len(stack)) = Postfix(lastT)
 
+\* The reason behind history independence, stated as a frame property: evaluating the stack pops EXACTLY the postfix
+\* image of the last expression and leaves everything below it untouched -- whatever that is.  (With InvTail this gives
+\* history independence for histories of any length, beyond the bound of the instance.)
+InvFrame == (lastT # <<>> /\ Parses(lastT) /\ ~HasIdent(lastT)) =>
+                EvalStack(stack, lastS).rest = SubSeq(stack, 1, Len(stack) - Len(Postfix(lastT)))
+
 \* accept / reject rule of QcVariableConfig: every space-separated token must be a number, one of the
 \* four statistics, one of the four operators or a parenthesis
 NumberTokens  == {"0", "1", "2.5", "-1", "1e3", "10", "3.", "007"}
